@@ -190,6 +190,50 @@ theorem up_splitNames_first (t rest : Name) (ns : List Name) (h : ∀ c ∈ t, c
     splitNames none ((t ++ 59 :: rest) :: ns) = (some t, ns) := by
   rw [splitNames, if_pos (by simp), up_takeWhile_semi t rest h, up_splitNames_some]
 
+/-! ### UTF-8 with replacement on ASCII prefixes -/
+
+theorem up_utf8Step_ascii (b : UInt8) (rest : Bytes) (h : b < 0x80) : PyStr.utf8Step b rest = (b.toNat, 1) := by
+  unfold PyStr.utf8Step
+  rw [if_pos h]
+
+theorem up_utf8Go_nil (f : Nat) : PyStr.utf8Go f [] = [] := by
+  cases f <;> rfl
+
+theorem up_utf8Go_ascii (a : Bytes) (h : ∀ b ∈ a, b < 0x80) (rest : Bytes) :
+    ∀ f, a.length ≤ f → PyStr.utf8Go f (a ++ rest) = a.map (·.toNat) ++ PyStr.utf8Go (f - a.length) rest := by
+  induction a with
+  | nil => intro f _; simp
+  | cons b a ih =>
+    intro f hf
+    cases f with
+    | zero => simp at hf
+    | succ f =>
+      have hb : b < 0x80 := h b (by simp)
+      simp only [List.cons_append, PyStr.utf8Go, up_utf8Step_ascii b (a ++ rest) hb, Nat.sub_self, List.drop_zero,
+        List.map_cons, List.length_cons]
+      rw [ih (fun x hx => h x (by simp [hx])) f (by simpa using hf)]
+      simp
+
+/-- the decoded text of an ASCII prefix is the prefix; what follows is decoded on its own -/
+theorem up_utf8Replace_ascii_append (a rest : Bytes) (h : ∀ b ∈ a, b < 0x80) :
+    PyStr.utf8Replace (a ++ rest) = a.map (·.toNat) ++ PyStr.utf8Replace rest := by
+  unfold PyStr.utf8Replace
+  rw [up_utf8Go_ascii a h rest _ (by simp)]
+  simp
+
+theorem up_utf8Replace_ascii (a : Bytes) (h : ∀ b ∈ a, b < 0x80) : PyStr.utf8Replace a = a.map (·.toNat) := by
+  have := up_utf8Replace_ascii_append a [] h
+  simpa [PyStr.utf8Replace, up_utf8Go_nil] using this
+
+theorem up_encName_ascii (n : Name) (h : ∀ c ∈ n, c < 128) : ∀ b ∈ encName n, b < 0x80 := by
+  intro b hb
+  simp only [encName, List.mem_map] at hb
+  obtain ⟨c, hc, rfl⟩ := hb
+  have := h c hc
+  show (UInt8.ofNat c).toNat < 128
+  simp [Nat.mod_eq_of_lt (by omega : c < 256)]
+  exact this
+
 /-! ### buildMembers -/
 
 def pmOf (predefine : Bool) (m : MemberDef) : PMember :=
@@ -211,7 +255,7 @@ theorem up_buildMembers (predefine : Bool) (k : Nat) (ms : List MemberDef) (extr
 theorem up_parseTemplate_of (count st : Nat) (data : Bytes) (infos : List (Nat × Nat × Nat)) (tn : Name)
     (mn : List Name)
     (h1 : (chunks8 count (data.take (count * 8))).mapM parseMemberInfo = .ok infos)
-    (h2 : splitNames none ((splitNul (data.drop (count * 8))).map fun b => b.map (·.toNat)) = (some tn, mn)) :
+    (h2 : splitNames none ((splitNul (data.drop (count * 8))).map PyStr.utf8Replace) = (some tn, mn)) :
     ∃ str, parseTemplate count st data = .ok
       { name := some (if tn == nm "ASCIISTRING82" then nm "STRING" else tn),
         members := buildMembers (isPredefined st) 0 mn infos,
@@ -253,23 +297,27 @@ theorem up_template (t : Template) (tname : Name) (junk : Bytes) (symbolType pad
     simp only [List.mem_map] at ha
     obtain ⟨m, hx, rfl⟩ := ha
     exact up_encName_nz m.name (hm m hx).1
-  have hnames : (t.members.map fun m => encName m.name).map (fun b => b.map (·.toNat)) = t.members.map (·.name) := by
+  have hnames : (t.members.map fun m => encName m.name).map PyStr.utf8Replace = t.members.map (·.name) := by
     rw [List.map_map]
     apply List.map_congr_left
     intro m hx
+    show PyStr.utf8Replace (encName m.name) = m.name
+    rw [up_utf8Replace_ascii _ (up_encName_ascii m.name (fun c hc => ((hm m hx).1.2 c hc).2.1))]
     exact up_encName_toNat m.name (fun c hc => by have := (hm m hx).1.2 c hc; omega)
-  have hnfN : t.nameField.map (·.toNat) = tname ++ 59 :: junk.map (·.toNat) := by
-    rw [hnf]
+  have hnfN : PyStr.utf8Replace t.nameField = tname ++ 59 :: PyStr.utf8Replace junk := by
+    rw [hnf, List.append_assoc]
+    show PyStr.utf8Replace (encName tname ++ ([59] ++ junk)) = _
+    rw [up_utf8Replace_ascii_append _ _ (up_encName_ascii tname (fun c hc => (hid.2 c hc).2.1)),
+      up_utf8Replace_ascii_append [59] junk (by decide)]
     have := up_encName_toNat tname (fun c hc => by have := hid.2 c hc; omega)
-    simp only [encName] at this
     simp [this]
   have h2 : splitNames none ((splitNul ((t.defBytes ++ List.replicate pad 0).drop (t.members.length * 8))).map
-      fun b => b.map (·.toNat)) = (some tname, t.members.map (·.name) ++ List.replicate (pad + 1) []) := by
+      PyStr.utf8Replace) = (some tname, t.members.map (·.name) ++ List.replicate (pad + 1) []) := by
     rw [up_defBytes, RT.drop_append_len _ _ _ hlen, List.append_assoc, List.cons_append,
       up_splitNul_seg _ _ hnz, up_splitNul_segs _ _ hseg, up_splitNul_pad]
     simp only [List.map_cons, List.map_append, hnames, hnfN]
     rw [up_splitNames_first _ _ _ (fun c hc => (hid.2 c hc).2.2)]
-    simp
+    simp [PyStr.utf8Replace, PyStr.utf8Go]
   have h1 : (chunks8 t.members.length ((t.defBytes ++ List.replicate pad 0).take (t.members.length * 8))).mapM
       parseMemberInfo = .ok (t.members.map fun m => (m.info, m.typeWord, m.offset)) := by
     rw [up_defBytes, RT.take_append_len _ _ _ hlen]
